@@ -1,4 +1,5 @@
 import BddProofs.Bracket
+import BddProofs.QueryFrame
 import BddProofs.BracketText
 import BddProofs.DotText
 import BddProofs.Dot
@@ -82,6 +83,15 @@ theorem C16_dot_text_injective {s s' : St} (hg : Good s) (hg' : Good s') {roots 
     toDot s roots = toDot s' roots' ∧ roots = roots' :=
   dotText_determines_good hg hg' hlive hlive' h
 
+/-- every query is a function of the cells below its argument only: two managers that agree there
+give the same count, the same bracket string and the same cubes — so no operation in between (which
+can only add cells or free unreachable ones) changes a later result -/
+theorem C16_queries_read_only_their_cone {s s' : St} {f : Ref} (h : AgreeBelow s s' f) (fuel numVars : Nat) :
+    satCount fuel s' f numVars = satCount fuel s f numVars ∧
+    toBracketString fuel s' f = toBracketString fuel s f ∧
+    paths fuel s' f = paths fuel s f :=
+  ⟨satCount_frame h fuel numVars, toBracketString_frame h fuel, paths_frame h fuel⟩
+
 end P
 #print axioms P.C16_bracket_faithful
 #print axioms P.C16_dot_faithful
@@ -92,3 +102,4 @@ end P
 #print axioms P.C16_bracket_text_injective
 #print axioms P.C16_dot_text_faithful
 #print axioms P.C16_dot_text_injective
+#print axioms P.C16_queries_read_only_their_cone
